@@ -2,6 +2,8 @@ package c10
 
 import (
 	"bytes"
+	"crypto/sha256"
+	"encoding/hex"
 	"fmt"
 	"sort"
 	"testing"
@@ -184,6 +186,11 @@ func runCase(c Case, o *kit.Obs) *kit.Failure {
 	feat := fmt.Sprintf("{kind=%s}", c.Kind)
 	libCmp := schema.Comparator(sc...)
 
+	// the order in which the ids come out is a deterministic function of the case: it is
+	// compared between the assembly and the portable build
+	order := sha256.New()
+	defer func() { o.Digest(hex.EncodeToString(order.Sum(nil)[:8])) }()
+
 	// verify checks that got is an ordered permutation of the rows with ids in want.
 	verify := func(got []parquet.Row, want []int, dedup bool, when string) *kit.Failure {
 		seen := map[int64]bool{}
@@ -196,6 +203,7 @@ func runCase(c Case, o *kit.Obs) *kit.Failure {
 				return kit.Failf("c10/malformed-row"+feat, "%s: %v", when, err)
 			}
 			id := s[0][0].I
+			fmt.Fprintf(order, "%d,", id)
 			if id < 0 || id >= int64(len(model)) || seen[id] {
 				return kit.Failf("c10/not-a-permutation"+feat, "%s: row %d has id %d (unknown or duplicated)", when, i, id)
 			}
